@@ -40,6 +40,9 @@ ASSUMPTIONS = [
     "'the dedented command text' = textwrap.dedent(text).strip() (surrounding blank lines/whitespace are "
     "not part of the command, as prepare_command documents); the heredoc adds one final newline",
     "command texts contain no NUL and are valid UTF-8 (they must pass through argv and a file)",
+    "the wrapper is executed by bash (redun's default shell, which is what runs it in script()) and, for "
+    "ASCII-only texts, also by /bin/sh; non-ASCII texts are not run under dash because dash's own "
+    "here-document reader drops a byte >= 0x80 that follows a prefix of the delimiter",
     "local staging directories and the remote parent directory exist; staged directories do not "
     "pre-exist at their destination (cp -r semantics); names do not start with '-' and contain no ':'",
     "stdout of a script task under the default local executor is bytes (redun/tests/test_script.py)",
@@ -135,7 +138,14 @@ def text_oracle(ctx: Ctx, case: dict) -> None:
         return
     with ctx.no_raise("get_wrapped_command", case):
         wrapped = scripting.get_wrapped_command(exec_text, eof_prefix=prefix)
-    p = subprocess.run([case["shell"], "-c", wrapped], stdin=subprocess.DEVNULL, stdout=subprocess.PIPE,
+    shell = case["shell"]
+    if shell == "sh" and not exec_text.isascii():
+        # dash (this box's /bin/sh) itself drops a byte >= 0x80 that follows a prefix of the delimiter in
+        # any here-document (`printf 'cat <<"EOF"\nE\xc3\xa9\nEOF\n' | dash` prints E\xa9): not redun's doing,
+        # and redun always runs the wrapper under its default shell (bash). Non-ASCII texts go to bash.
+        shell = "bash"
+        ctx.label("text:non-ascii-routed-to-bash")
+    p = subprocess.run([shell, "-c", wrapped], stdin=subprocess.DEVNULL, stdout=subprocess.PIPE,
                        stderr=subprocess.PIPE, env={"PATH": os.environ.get("PATH", "/usr/bin:/bin"), "HOME": "/vf-home"})
     want_bytes = (want_exec + "\n").encode("utf8")
     if p.stdout != want_bytes or p.returncode != 0:
@@ -146,7 +156,7 @@ def text_oracle(ctx: Ctx, case: dict) -> None:
             key = "wrapper:bytes-altered"
         else:
             key = "wrapper:exit-status"
-        raise Violation(key, f"{case['shell']} -c <wrapper> exit={p.returncode} printed {p.stdout!r}, the command "
+        raise Violation(key, f"{shell} -c <wrapper> exit={p.returncode} printed {p.stdout!r}, the command "
                              f"text is {want_bytes!r}; stderr={p.stderr[-200:]!r}", case)
 
 
